@@ -207,6 +207,11 @@ def gen_world(rng, stream="regular"):
         # which sends the simulator into its preemption / migration code - outside the simulator model, see C05-SR3)
         if r4.random() < 0.2 and not policy.get("retract"):
             policy["runtimes"] = r4.choice([[0, 1, 2], [0, 3, 7], [1, 5, 30], [0, 0, 60]])
+        # a policy that answers a task twice in one invocation (a second placement on another pool / at another
+        # time, unplaced, or a cancellation): own sub-stream, the main stream and the draws above are not shifted
+        r5 = common.Rng(0, "sim-policy-dup/" + _json.dumps([wl, flags, {k: v for k, v in policy.items() if k != "runtimes"}], sort_keys=True, default=str))
+        if r5.random() < 0.3:
+            policy["dup_prob"] = r5.choice([0.15, 0.4, 1.0])
     if stream == "profile":
         # work profiles that have to be loaded (loading strategies in the description) and a policy that decides
         # loads and evictions next to its task placements
